@@ -54,3 +54,169 @@ def run(R, tier, rng):
         if o.startswith("ERR"): m = s = "oracle-error: " + o[:80]
         else: m, s = parse(o)
         R.record(line, impl, m, s, nt, kind)
+
+
+# ------------------------------------------------------------------------------------------------------------------------
+# Programs: every public operation applied to a derived (lazy) array must behave as on a freshly built equal array.
+OBS_RULE = ("programs: 4 base arrays x lazy selection chains of depth 1 and 2 (row slices / fancy rows / masks / column slices of either sign / "
+            "combinations) x ~70 observations (reads, int row, element, column, reductions over rows and columns, scans, sort, unique, diff, ufuncs "
+            "with scalar / column / ragged operands, concatenate on both axes, where, like-functions, subset, mask index, ragged_slice, padded matrix, "
+            "astype, to_numpy, iteration, and assignments of 4 value kinds followed by reading the derived array AND its source); each observation "
+            "is applied to a new instance of the derived array and to RaggedArray(derived.tolist()); results must be equal")
+PBASES = [[[0, 1, 2, 3], [], [4, 5], [6, 7, 8], [9]], [[], [10, 11], [12], []], [[20, 21, 22], [23, 24, 25]], [[5, 3, 5, 1], [2, 2], [7]]]
+
+
+def p_lazies(nr):
+    L = [slice(1, None), slice(None, None, -1), slice(None, None, 2), [nr - 1, 0, 0], [True] + [False] * (nr - 2) + [True] if nr >= 2 else [True] * nr,
+         (slice(None), slice(None, None, 2)), (slice(None), slice(None, None, -1)), (slice(None), slice(1, None)), ([0, nr - 1], slice(1, 3)),
+         (slice(None), slice(None, None, -2)), (slice(None, None, 2), slice(None, None, 1)), (Ellipsis, slice(0, 2)), (slice(None, None, -1), slice(-2, None)),
+         slice(None, -1), [0], (slice(1, None), slice(None, -1))]
+    return L
+
+
+def observations(rows):
+    """list of (name, function(array) -> canonical value); the functions are applied to the derived and to the fresh array"""
+    import numpy as np
+    from npstructures import RaggedArray, ragged_slice
+    from harness.fam_ra2 import kl, ra_obs
+    nr = len(rows); lens = [len(r) for r in rows]; mx = max(lens + [0]); mn = min(lens + [0]) if lens else 0
+    O = []
+    add = lambda name, f: O.append((name, f))
+    add("tolist", lambda a: a.tolist()); add("len/size/shape", lambda a: [len(a), int(a.size), int(a.shape[0]), np.asarray(a.shape[1]).tolist(), np.asarray(a.lengths).tolist()])
+    add("ravel", lambda a: kl(a.ravel())); add("iter", lambda a: [kl(r) for r in a]); add("str", lambda a: str(a)); add("dtype", lambda a: str(a.dtype))
+    for i in sorted({0, nr - 1, -1, -nr, nr, 1} ):
+        add(f"[{i}]", lambda a, i=i: kl(a[i]))
+        for j in (0, -1, 1, mx):
+            add(f"[{i},{j}]", lambda a, i=i, j=j: kl(a[i, j]))
+    for j in (0, -1, mn - 1, mn):
+        add(f"[:,{j}]", lambda a, j=j: ra_obs(a[:, j]))
+        add(f"get_column_values({j})", lambda a, j=j: ra_obs(a.get_column_values(j)))
+    if nr: add("[[0,-1],0]", lambda a: ra_obs(a[[0, -1], 0])); add("[[0,-1],[0,0]]", lambda a: ra_obs(a[[0, -1], [0, 0]]))
+    for sl in (slice(None, None, -1), slice(1, None), slice(None, None, 2), slice(-2, None), slice(1, None, -1)):
+        add(f"[:, {sl}]", lambda a, sl=sl: ra_obs(a[:, sl])); add(f"[{sl}]", lambda a, sl=sl: ra_obs(a[sl]))
+        add(f"[::-1, {sl}]", lambda a, sl=sl: ra_obs(a[::-1, sl]))
+    add("[...]", lambda a: ra_obs(a[...])); add("[()]", lambda a: ra_obs(a[()])); add("[..., 1:]", lambda a: ra_obs(a[..., 1:]))
+    if nr: add("[list]", lambda a: ra_obs(a[[nr - 1, 0]])); add("[mask]", lambda a: ra_obs(a[np.array([i % 2 == 0 for i in range(nr)])]))
+    for m in ("sum", "prod", "any", "all", "max", "min", "mean", "argmax", "argmin"):
+        add(m + "(axis=-1)", lambda a, m=m: kl(getattr(a, m)(axis=-1)))
+        add("np." + m + "(axis=-1)", lambda a, m=m: kl(getattr(np, m)(a, axis=-1)))
+    for m in ("sum", "mean", "max", "prod"):
+        add("np." + m + "()", lambda a, m=m: kl(getattr(np, m)(a)))
+    add("sum(keepdims)", lambda a: kl(a.sum(axis=-1, keepdims=True)))
+    add("sum(axis=0)", lambda a: kl(a.sum(axis=0))); add("np.sum(axis=0)", lambda a: kl(np.sum(a, axis=0))); add("mean(axis=0)", lambda a: kl(a.mean(axis=0)))
+    add("col_counts", lambda a: kl(a.col_counts())); add("nonzero", lambda a: [kl(x) for x in np.nonzero(a)]); add("ra.nonzero", lambda a: [kl(x) for x in a.nonzero()])
+    for side in ("left", "right"): add("padded/" + side, lambda a, side=side: kl(a.as_padded_matrix(side=side, fill_value=-7)))
+    add("cumsum", lambda a: ra_obs(np.cumsum(a, axis=-1))); add("ra.cumsum", lambda a: ra_obs(a.cumsum(axis=-1)))
+    for u in ("add", "subtract", "bitwise_xor"): add(u + ".accumulate", lambda a, u=u: ra_obs(getattr(np, u).accumulate(a, axis=-1)))
+    for u in ("add", "multiply", "maximum", "bitwise_and"): add(u + ".reduce", lambda a, u=u: kl(getattr(np, u).reduce(a, axis=-1)))
+    add("sort", lambda a: ra_obs(a.sort(axis=-1))); add("unique", lambda a: ra_obs(np.unique(a, axis=-1)))
+    add("unique+counts", lambda a: [ra_obs(x) for x in np.unique(a, axis=-1, return_counts=True)])
+    for k in (1, 2): add(f"diff({k})", lambda a, k=k: ra_obs(np.diff(a, n=k, axis=-1)))
+    add("a+1", lambda a: ra_obs(a + 1)); add("2-a", lambda a: ra_obs(2 - a)); add("a*a", lambda a: ra_obs(a * a)); add("-a", lambda a: ra_obs(-a)); add("a>4", lambda a: ra_obs(a > 4))
+    add("a+fresh", lambda a: ra_obs(a + RaggedArray([[1] * l for l in lens], dtype=int)))
+    add("fresh-a", lambda a: ra_obs(RaggedArray([[1] * l for l in lens], dtype=int) - a))
+    if nr: add("a+column", lambda a: ra_obs(a + np.arange(nr)[:, None])); add("column-a", lambda a: ra_obs(np.arange(nr)[:, None] - a))
+    add("concat0", lambda a: ra_obs(np.concatenate([a, a]))); add("concat0/fresh", lambda a: ra_obs(np.concatenate([RaggedArray([[1], []]), a])))
+    add("concat1", lambda a: ra_obs(np.concatenate([a, a], axis=-1)))
+    add("where", lambda a: ra_obs(np.where(a > 4, a, 0))); add("where/ragged", lambda a: ra_obs(np.where(a > 4, a, a * 2)))
+    add("zeros_like", lambda a: ra_obs(np.zeros_like(a))); add("ones_like", lambda a: ra_obs(np.ones_like(a)))
+    add("empty_like", lambda a: np.asarray(np.empty_like(a).lengths).tolist())
+    add("subset", lambda a: ra_obs(a.subset(a > 4))); add("maskindex", lambda a: ra_obs(a[a > 4])); add("maskindex/fresh", lambda a: ra_obs(a[RaggedArray([[j % 2 == 0 for j in range(l)] for l in lens], dtype=bool)]))
+    if nr:
+        add("ragged_slice", lambda a: ra_obs(ragged_slice(a, np.array([min(1, l) for l in lens]), np.array(lens))))
+        add("ragged_slice/neg", lambda a: ra_obs(ragged_slice(a, ends=np.array([-1 if l else 0 for l in lens]))))
+    add("astype", lambda a: ra_obs(a.astype(float))); add("to_numpy", lambda a: kl(a.to_numpy_array()))
+    add("equals", lambda a: bool(a.equals(RaggedArray(rows, dtype=int))))
+    return O
+
+
+def assignments(rows, rng):
+    import numpy as np
+    from npstructures import RaggedArray
+    nr = len(rows); lens = [len(r) for r in rows]
+    A = [("a[...]=scalar? (a[:]=5)", slice(None), 5), ("a[1:]=6", slice(1, None), 6), ("a[:,1:]=7", (slice(None), slice(1, None)), 7), ("a[::-1, ::2]=8", (slice(None, None, -1), slice(None, None, 2)), 8)]
+    if nr:
+        A += [("a[0]=9", 0, 9), ("a[-1]=9", -1, 9), ("a[[0]]=column", [0], "column"), ("a[:]=ragged", slice(None), "ragged"), ("a[:]=column", slice(None), "column"),
+              ("a[mask]=3", "mask", 3)]
+        if lens[0]: A += [("a[0,0]=11", (0, 0), 11), ("a[0]=flat", 0, "flat")]
+        A += [("a[ragged mask]=4", "rmask", 4)]
+    return A
+
+
+def run_programs(R, tier, rng):
+    import numpy as np
+    from npstructures import RaggedArray
+    from harness.fam_ra2 import kl
+    to_py = _to_py
+    n_prog = 0
+    for B in PBASES:
+        first = p_lazies(len(B))
+        chains = [[l] for l in first]
+        # depth 2 (and 3 in the thorough tier)
+        for l1 in first:
+            try: r1 = RaggedArray(B, dtype=int)[to_py(l1)].tolist()
+            except Exception: continue
+            seconds = p_lazies(len(r1))
+            pick = seconds if tier == "thorough" else rng.sample(seconds, 4)
+            for l2 in pick:
+                chains.append([l1, l2])
+                if tier == "thorough" and rng.random() < .15:
+                    try: r2 = RaggedArray(r1, dtype=int)[to_py(l2)].tolist()
+                    except Exception: continue
+                    chains.append([l1, l2, rng.choice(p_lazies(len(r2)))])
+        for chain in chains:
+            def derive(src=None):
+                a = RaggedArray(B, dtype=int) if src is None else src
+                for l in chain: a = a[to_py(l)]
+                return a
+            try:
+                rows = derive().tolist()
+                if not isinstance(rows, list) or (rows and not isinstance(rows[0], list)): continue
+            except Exception:
+                continue
+            cname = "prog " + show(B) + " " + " ".join(show(enc_index(l)) for l in chain)
+            pyname = f"d = RaggedArray({B})" + "".join(f"[{l!r}]" for l in chain)
+            nt = len(rows) >= 2
+            for name, f in observations(rows):
+                n_prog += 1
+                impl = guarded(lambda: f(derive())); ref = guarded(lambda: f(RaggedArray(rows, dtype=int)))
+                R.record(cname + " :: " + name, impl, ref, ref, nt, "observe/" + name.split("(")[0].split("[")[0][:14], py=pyname + f";  {name}  vs the same on RaggedArray({rows})")
+            # assignments into the derived array: it changes like a fresh array, its source does not change
+            for name, idx, v in assignments(rows, rng):
+                def do(a, parent=None):
+                    lens = [len(r) for r in rows]
+                    ix = idx
+                    if idx == "mask": ix = np.array([i % 2 == 0 for i in range(len(rows))])
+                    if idx == "rmask": ix = RaggedArray([[j % 2 == 1 for j in range(l)] for l in lens], dtype=bool)
+                    sel = a[to_py(ix)] if not isinstance(ix, RaggedArray) else None
+                    val = v
+                    if v == "column":
+                        k = len(sel) if sel is not None else 0; val = np.arange(100, 100 + k)[:, None]
+                    elif v == "ragged": val = RaggedArray([[50 + j for j in range(l)] for l in np.asarray(sel.lengths).tolist()], dtype=int)
+                    elif v == "flat": val = np.arange(60, 60 + len(rows[0]))
+                    a[to_py(ix) if not isinstance(ix, RaggedArray) else ix] = val
+                    return [a.tolist(), None if parent is None else parent.tolist()]
+                def impl_f():
+                    p = RaggedArray(B, dtype=int); return do(derive(p), p)
+                def ref_f():
+                    r = do(RaggedArray(rows, dtype=int)); return [r[0], B]
+                impl = guarded(impl_f); ref = guarded(ref_f)
+                n_prog += 1
+                R.record(cname + " :: assign " + name, impl, ref, ref, nt, "assign", py=pyname + f";  d{name[1:]}; (d.tolist(), source.tolist())")
+    R.notes["programs_run"] = n_prog
+
+
+def _to_py(idx):
+    import numpy as np
+    def c(x):
+        if isinstance(x, list) and x and isinstance(x[0], bool): return np.array(x)
+        if isinstance(x, list) and len(x) == 0: return np.array([], dtype=int)
+        return x
+    return tuple(c(x) for x in idx) if isinstance(idx, tuple) else c(idx)
+
+
+_run_chains = run
+def run(R, tier, rng):
+    _run_chains(R, tier, rng)
+    run_programs(R, tier, rng)
+RULE = RULE + " || " + OBS_RULE
